@@ -198,9 +198,7 @@ Fixpoint pull (rest : list raw_item) (s : live) : step_result :=
            && (mk_col (sp_start sp) =? 0)
            && negb (match trim val with [] => true | _ => false end)
         then Fail (Err E_FoldedBlockScalarMustIndentContent l) s0 r else
-        let st' := if (match val with [] => true | _ => false end) && negb (anchor =? 0) && is_quoted st
-                   then Plain else st in
-        let e := EScalar val (sftag_from_optional tag) tag st' anchor l in
+        let e := EScalar val (sftag_from_optional tag) tag st anchor l in
         let s1 := record s0 e false false in
         let s2 := if negb (anchor =? 0) then with_anchors s1 ((anchor, [e]) :: lv_anchors s1) else s1 in
         Yield e (yielded s2 e) r
